@@ -9,6 +9,7 @@ args = [a for a in sys.argv[1:] if not a.startswith("--")]
 workers = int(args[0]) if args and args[0].isdigit() else 6
 names = args[1:] if len(args) > 1 else sorted(os.path.basename(d) for d in glob.glob("/verif/seeded/C*-*"))
 PROPS = ["C%02d" % i for i in range(1, 21)]
+OWN_ONLY = "--own-only" in sys.argv        # only the check of the seed's own property (a regression run of the detection table)
 q = queue.Queue()
 for n in names:
     q.put(n)
@@ -42,7 +43,7 @@ def worker(k):
                 results[name] = {"error": "patch does not apply"}
             continue
         row = {}
-        for pid in PROPS:
+        for pid in ([name.split("-")[0]] if OWN_ONLY else PROPS):
             t0 = time.time()
             p = sh("cd %s && VERIF_REPO=%s VERIF_SCRATCH=%s timeout 1800 ./check %s quick" % (v, wt, base, pid))
             lines = [l for l in p.stdout.splitlines() if re.match(r"^(VIOLATION|OK|  )", l)]
@@ -69,14 +70,14 @@ with open("/verif/seeded/CROSS_MATRIX.md", "w") as f:
         if "error" in row:
             f.write("| %s | %s |\n" % (n, row["error"]))
             continue
-        f.write("| %s | " % n + " | ".join({"OK": ".", "VIOLATION": "V", "NOINPUT": "N", "ERROR": "E"}[row[p]["verdict"]] for p in PROPS) + " |\n")
+        f.write("| %s | " % n + " | ".join({"OK": ".", "VIOLATION": "V", "NOINPUT": "N", "ERROR": "E"}[row[p]["verdict"]] if p in row else " " for p in PROPS) + " |\n")
     f.write("\n## Alarms of checks other than the seed's own property\n\n")
     for n in sorted(results):
         row = results[n]
         if "error" in row:
             continue
         for p in PROPS:
-            if row[p]["verdict"] != "OK" and p != n.split("-")[0]:
+            if p in row and row[p]["verdict"] != "OK" and p != n.split("-")[0]:
                 f.write("* %s -> %s %s: %s\n" % (n, p, row[p]["verdict"], row[p]["detail"]))
 with open("/verif/seeded/DETECTION.md", "w") as f:
     f.write("# Detection of the seeded changes by the check of their own property (from tools/cross_matrix.py, %s)\n\n" % time.strftime("%Y-%m-%d"))
@@ -88,7 +89,7 @@ with open("/verif/seeded/DETECTION.md", "w") as f:
             continue
         own = n.split("-")[0]
         v = row[own]
-        others = [p for p in PROPS if p != own and row[p]["verdict"] != "OK"]
+        others = [p for p in PROPS if p != own and p in row and row[p]["verdict"] != "OK"]
         f.write("| %s | %s | %s%s |\n" % (n, {"OK": "MISSED", "VIOLATION": "caught (failing input)", "NOINPUT": "caught (obligation/correspondence, no failing input)", "ERROR": "error"}[v["verdict"]],
                                        v["detail"][:160].replace("|", "\\|"), ("; also reported by " + " ".join(others)) if others else ""))
 print("done")
